@@ -124,7 +124,8 @@ PROPS["C16"] = {
 }
 
 PROPS["C19"] = {
-    "parts": [{"family": "config", "admits": "ConfigCorr.admits_config", "model_obs": "model_cobs", "timeout": 600}],
+    "parts": [{"family": "config", "admits": "ConfigCorr.admits_config", "model_obs": "model_cobs", "timeout": 600},
+              {"family": "pool", "admits": "PoolCorr.admits_pool", "model_obs": None, "timeout": 300}],
     "level_text": "Theorems for every sequence of settings of any length: C19_forms_agree (option form = builder form of every setting), C19_newnode_order (NewNode's base-before-custom application = the given order, because the two groups write disjoint fields), C19_mix and C19_mix_batch (any mixture of constructor options and builder calls = left-to-right application in the order of taking effect), C19_last_wins, C19_frame (a setting leaves every other parameter untouched), C19_defaults (one attempt, no wait, sequential, continue, no functions; pool size <= 0 means 1), C19_built_is_denoted. The implementation is judged both against the constructors as written (admits_config) and against what the settings denote (spec_C19): getters, which tagged function fires in each phase, and a probe run whose whole callback trace (gated when concurrent) must equal the engine model's for the denoted configuration.",
     "level_note": _T + " Function-valued options passed to NewBatchNode are ignored by design (unknown option types) and are not generated.",
     "explanation": "field-wise last-wins algebra of settings; enumeration of short setting sequences and random longer ones with probe runs",
